@@ -178,7 +178,7 @@ def lemma_copy_worker(ctx):
     paths = eng.run(fn.name, [OpaqueV("Receiver<Operation>", "work"), RefV(Cell(cfg_arc)), upd], st)
     ctx.paths += len(paths)
     _check_arms(ctx, eng, paths, cv, "copy_worker")
-    ctx.bounds = "one arbitrary operation of each kind then queue closure; every call may fail once; no-clobber symbolic"
+    ctx.bounds = "one arbitrary operation of each kind then queue closure; every call may fail once; no-clobber symbolic; workers <= 65536"
 
 
 def lemma_dispatch_worker(ctx):
@@ -206,10 +206,14 @@ def lemma_dispatch_worker(ctx):
     eng.add_summary(r"^blocking_threadpool::Builder::build$", lambda e, st, c, a, d: Outcome(OpaqueV("ThreadPool", "pool", dict(a[0].attrs)), events=[Event("pool.build", [a[0].attrs.get("num_threads"), a[0].attrs.get("queue_len")], None)]))
     eng.add_summary(r"^ThreadPool::join$", lambda e, st, c, a, d: Outcome(UnitV(), events=[Event("pool.join", [], None)]))
     eng.inline += [r"^Config::num_workers$"]
-    eng.add_summary(r"^num_cpus::get$|^get$", lambda e, st, c, a, d: Outcome(e.fresh_int(st, "usize", "ncpu")))
+    def s_ncpu(eng, st, callee, args, dty):
+        n = eng.fresh_int(st, "usize", "ncpu")
+        return Outcome(n, [n.t >= 1, n.t <= 65536])
+    eng.add_summary(r"^num_cpus::get$|^get$", s_ncpu)
     fn = fn_named(eng.funcs, "dispatch_worker")
     st = State()
     cfg, cv = mk_config(ctx, eng, st)
+    st.pc.append(cv["workers"].t <= 65536)      # stated bound: worker counts beyond 2^16 are outside the claim
     cfg_arc = mk_arc(cfg, "Arc<config::Config>", "cfg_arc", rc=2)
     upd = mk_arc(OpaqueV("dyn StatusUpdater", "updater"), "Arc<dyn StatusUpdater>", "stat", rc=2)
     paths = eng.run(fn.name, [OpaqueV("Receiver<Operation>", "work"), RefV(Cell(upd)), cfg_arc], st)
@@ -217,18 +221,29 @@ def lemma_dispatch_worker(ctx):
     _check_arms(ctx, eng, paths, cv, "dispatch_worker")
     # C20: bounded queue, worker count from the configuration
     for p in paths:
+        if p.status != "return":
+            continue        # panics / bounds are reported by the arm checks above
         b = [e for e in p.trace if e.name == "pool.build"]
+        if not b and is_err(p.ret) and not [e for e in p.trace if e.name in ("recv", "queue_file_blocks", "symlink", "copy_node")]:
+            continue        # set-up failed before any work was taken (e.g. a failed limit query): reported, nothing opened
         if len(b) != 1:
             ctx.fail("C20: exactly one block pool is built", str(trace_names(p)))
             continue
         nt, ql = b[0].args
+        if not isinstance(nt, IntV):
+            ctx.fail("C20: the pool size comes from the configuration", "no num_threads")
+            continue
+        ctx.lemma(eng, "C20: the pool has `workers` threads (or the CPU count for 0)", p.pc,
+                  z3.Or(nt.t == cv["workers"].t, cv["workers"].t == 0))
         if not isinstance(ql, IntV):
             ctx.fail("C20: the block pool has a bounded job queue (back-pressure on the dispatcher)", "no queue_len")
         else:
-            ctx.lemma(eng, "C20: the block pool's job queue is bounded by a constant <= 128", p.pc, z3.And(ql.t >= 1, ql.t <= 128))
-        if not isinstance(nt, IntV):
-            ctx.fail("C20: the pool size comes from the configuration", "no num_threads")
-        else:
-            ctx.lemma(eng, "C20: the pool has `workers` threads (or the CPU count for 0)", p.pc,
-                      z3.Or(nt.t == cv["workers"].t, cv["workers"].t == 0))
-    ctx.bounds = "one arbitrary operation of each kind then queue closure; every call may fail once; no-clobber symbolic"
+            # files open at once: one per queued job, one per running job, the one being dispatched; two descriptors
+            # each.  The limit that open(2) enforces is the soft RLIMIT_NOFILE: 1024 (the default the property names)
+            # unless the code itself asked getrlimit, in which case it is whatever that call reported (>= 1024).
+            soft = p.ghost.get("rlimit_soft")
+            lim = soft.t if soft is not None else z3.IntVal(1024)
+            pre = [nt.t >= 1, nt.t <= 64] + ([soft.t >= 1024] if soft is not None else [])
+            ctx.lemma(eng, "C20: the job queue is bounded (>= 1) and 2*(queue + workers + 1) descriptors fit the soft descriptor limit for 1..64 workers",
+                      p.pc + pre, z3.And(ql.t >= 1, 2 * (ql.t + nt.t + 1) <= lim))
+    ctx.bounds = "one arbitrary operation of each kind then queue closure; every call may fail once; no-clobber symbolic; workers <= 65536"
